@@ -695,3 +695,24 @@ PROPS["C08"] = dict(
 )
 
 
+
+PROPS["C35"] = dict(
+    title="Subintent structure validation accepts exactly well-formed trees",
+    functions=["radix_transactions::validation::TransactionValidator::{validate_intents_and_structure, "
+               "validate_intent_relationships}", "SubintentRelationshipDetails::default_for, IntentHash::is_for_subintent, "
+               "AcrossIntentAggregation::{start, finalize}"],
+    bounds="every intent tree with <= 3 non-root subintents and <= 3 (quick) / <= 4 (thorough) declared child references in "
+           "total, distributed in every way over the root and the subintents (3-subintent shapes in the quick tier: those "
+           "with exactly 3 references); hashes range over 5 values each (so duplicates, missing children, shared children, "
+           "cycles and unreachable subintents all occur), max_subintent_depth 0..4, root = transaction intent or subintent, "
+           "yield counts 0..3, each intent's own validation succeeding or failing",
+    outside="trees with more than 3 non-root subintents or more than 4 child references; how the hashes and the yield "
+            "summaries are computed (preparation, manifest interpretation); reference-count aggregation (part of C34)",
+    assumptions=["the IntentTreeStructure / IntentStructure / HasSubintentHash methods answer from a symbolic table of "
+                 "intents; validate_intent answers a yield summary whose child_yields has one entry per declared child (as "
+                 "ManifestYieldSummary::new_with_children builds it)",
+                 "no intent hash is the all-zero hash used as PLACEHOLDER_PARENT (hash preimage resistance)",
+                 "IndexMap keeps insertion order when nothing is removed (slot order of the model)"],
+    trusted_base=MIR_TB,
+    mir=True,
+)
